@@ -2,7 +2,7 @@
 import re
 
 from analysis import (Prov, Guards, fmt, fmt_short, walk, roots, short, comparison, find_calls, callee_matches,
-                      must_pass, path_to, describe_path, peel_await, edge_label, field_writes)
+                      must_pass, path_to, describe_path, peel_await, edge_label, field_writes, option_edges, membership_test)
 from facts import AnchorError, strip_closure
 from harness import Rule, guarded
 import c13
@@ -244,7 +244,7 @@ def r3_r4(ctx):
 
 def r5(ctx):
     facts = ctx.facts
-    rule = Rule("C03.R5", "fresh id-nonce from the RNG; stored challenge data is the WHOAREYOU packet's authenticated data", floor=3, engine="A-prov")
+    rule = Rule("C03.R5", "fresh id-nonce from the RNG; stored challenge data is the WHOAREYOU packet's authenticated data; one challenge per node", floor=4, engine="A-prov + A-dom")
     b = body_of(facts, H + "send_challenge")
     rule.analysed(b)
     prov = Prov(b, facts)
@@ -273,6 +273,21 @@ def r5(ctx):
                    "the stored challenge data is %s" % (fmt_short(data) if data else "?"), loc=b.loc(it.line))
         rule.check(fmt_short(prov.operand(it.args[1])) == "wru_ref.0", "challenge stored under the NodeAddress it was sent to", "whoareyou|key",
                    "challenge stored under %s" % fmt_short(prov.operand(it.args[1])), loc=b.loc(it.line))
+    # one challenge per node at a time: while one is outstanding no second WHOAREYOU is sent and the stored one is not touched (a second
+    # insert under the same key does not replace the challenge, it restarts its timer: the old WHOAREYOU would stay answerable past its expiry)
+    g = Guards(b, prov, facts)
+    some_e, none_e = option_edges(g, lambda e: e[0] == "call" and re.search(r"HashMapDelay(::<.*>)?::get$", short(e[1])) and "active_challenges" in fmt_short(e))
+    absent = list(none_e)
+    for bi2, t2, e2 in g.switches():
+        m = membership_test(e2)
+        if m and "active_challenges" in fmt_short(m[0]):
+            f_, tr_ = g.bool_edges(bi2)
+            absent.append((bi2, f_ if not m[2] else tr_))
+    r_ = b.reachable(0, removed_edges=absent)
+    rule.check(bool(absent) and not any(ibi in r_ for ibi, _ in ins) and not any(sbi in r_ for sbi, _ in sends) and bi not in r_,
+               "send_challenge builds, sends and stores a WHOAREYOU only when no challenge is outstanding for the node", "whoareyou|outstanding",
+               "send_challenge can send / store a WHOAREYOU although a challenge for that node is already outstanding: the stored challenge is not replaced, only its "
+               "expiry is pushed back, so a handshake answering the first WHOAREYOU is accepted after that challenge should have expired", loc=b.loc(b.line))
     for sbi, st_ in sends:
         pk = prov.operand(st_.args[2])
         okk = all(x[0] == "call" and x[3] == nkey for x in roots(pk)) and fmt_short(prov.operand(st_.args[1])) == "wru_ref.0"
